@@ -25,6 +25,7 @@ import (
 
 	. "golang.org/x/net/http2"
 	"golang.org/x/net/http2/hpack"
+	"golang.org/x/net/internal/zzverif/vx"
 )
 
 // ---- wire decoder (independent of the package's Framer) ---------------------
@@ -41,6 +42,7 @@ type c15Frame struct {
 	Ping      [8]byte
 	Settings  []Setting
 	Status    string // HEADERS: value of :status ("" = none, e.g. trailers)
+	Fields    [][2]string // HEADERS: the decoded header list
 	Incr      uint32
 	Step      int
 }
@@ -210,6 +212,7 @@ func (wr *c15Wire) endHeaders() c15Frame {
 		if hf.Name == ":status" {
 			f.Status = hf.Value
 		}
+		f.Fields = append(f.Fields, [2]string{hf.Name, hf.Value})
 	})
 	if _, err := wr.hdec.Write(wr.hblock); err != nil {
 		wr.setBad("header block of stream %d does not decode: %v", f.Stream, err)
@@ -543,3 +546,17 @@ var c15Malformed = map[string]func(id string) []string{
 func c15ValidFields(id string) []string {
 	return []string{":method", "POST", ":scheme", "https", ":authority", "h", ":path", "/" + id, "te", "trailers", "x-id", id}
 }
+
+// c15Yield stops a generator once the internal deadline has passed (the check
+// is made here because every shard sees every generated case).
+func c15Yield[T any](c *vx.Ctx, yield func(T) bool) func(T) bool {
+	n := 0
+	return func(x T) bool {
+		n++
+		if n&127 == 0 && c.Expired() {
+			return false
+		}
+		return yield(x)
+	}
+}
+
